@@ -20,14 +20,14 @@ def insByRound (m : Msg) : List Msg → List Msg
 
 def canonCommits (l : List Msg) : List Msg := l.foldl (fun acc m => insByRound m acc) []
 
-def showInst (i : Inst) : String :=
-  s!"{i.height}:{i.round}:{b01 i.decided}:{b01 i.stopped}:[{String.intercalate ";" ((canonCommits i.commits).map showMsg)}]"
-
-def showStored (s : Stored) : String := s!"{showInst s.inst}#{showMsg s.cert}"
-
 def showOpt {α} (f : α → String) : Option α → String
   | some a => f a
   | none => "-"
+
+def showInst (i : Inst) : String :=
+  s!"{i.height}:{i.round}:{b01 i.decided}:{b01 i.stopped}:{showOpt toString i.accepted}:[{String.intercalate ";" ((canonCommits i.commits).map showMsg)}]"
+
+def showStored (s : Stored) : String := s!"{showInst s.inst}#{showMsg s.cert}"
 
 def showState (s : State) : String :=
   let insts := String.intercalate "," (s.c.insts.map showInst)
